@@ -212,6 +212,70 @@ def gather_files(rep, rng, tier, impl):
                     files.append(("metadata-program", bytes.fromhex(dev.strip())))
     except Exception as e:            # the generator is another slice's; C19 runs without it
         rep.cov["metadata_programs_unavailable"] = str(e)[:200]
+    # (b2) prototypes only foreign producers write: float attributes with ONLY a minimum or ONLY a maximum,
+    #      integers at the full 64-bit range, scaled integers with unusual scale/offset (METAWDEV token language of slice xg)
+    try:
+        hx = lambda t: "=" + t.encode().hex()
+        one_sided = [
+            ["x~D/c059000000000000/-", "y~D/-/4059000000000000", "z~D/-/-"],
+            ["x~F/c2c80000/-", "y~F/-/42c80000", "z~F/c2c80000/42c80000", "in~F/-/3f800000"],
+            ["x~D/-/-", "y~D/-/-", "z~D/-/-", "in~D/0000000000000000/-", "ts~D/-/7fefffffffffffff"],
+            ["x~S/-9223372036854775808/9223372036854775807/3f50624dd2f1a9fc/0000000000000000", "y~S/-5/5/bff0000000000000/4024000000000000", "z~S/0/0/3ff0000000000000/0000000000000000",
+             "row~I/-9223372036854775808/9223372036854775807", "col~I/7/7"],
+        ]
+        lines = []
+        for recs in one_sided:
+            cmds = ["G", hx("copy-guid"), "PC", hx("pc-guid"), str(len(recs))] + recs
+            for k in range(3):
+                vals = []
+                for r in recs:
+                    ty = r.split("~")[1]
+                    if ty.startswith("D"):
+                        vals.append("d%016x" % (0x3ff0000000000000 + k))
+                    elif ty.startswith("F"):
+                        vals.append("f%08x" % (0x3f800000 + k))
+                    elif ty.startswith("S"):
+                        lo, hi = int(ty.split("/")[1]), int(ty.split("/")[2])
+                        vals.append("s%d" % (lo if k == 0 else hi if k == 1 else (lo + hi) // 2))
+                    else:
+                        lo, hi = int(ty.split("/")[1]), int(ty.split("/")[2])
+                        vals.append("i%d" % (lo if k == 0 else hi if k == 1 else (lo + hi) // 2))
+                cmds += ["PP", str(len(vals))] + vals
+            cmds += ["PE", "FIN"]
+            lines.append("METAWDEV " + " ".join(cmds))
+        outs = core.run_cases(impl, lines)
+        for o in outs:
+            if " | " in o and not o.startswith("unknown-kind"):
+                res, dev = o.split(" | ", 1)
+                if res.split(",")[-1] == "o" and dev.strip():
+                    files.append(("foreign-style-prototype", bytes.fromhex(dev.strip())))
+                else:
+                    rep.cov.setdefault("foreign_style_programs_rejected", []).append(res[:80])
+        # the same idea on files the writer did NOT shape: take files whose float attributes declare both limits and
+        # remove one of the two attributes from the XML text (a producer may omit either), reseal
+        import re
+        from props import xe
+        both = [["x~D/c059000000000000/4059000000000000", "y~D/c059000000000000/4059000000000000", "z~D/c059000000000000/4059000000000000",
+                 "in~F/00000000/3f800000"]]
+        lines = []
+        for recs in both:
+            cmds = ["G", hx("copy-guid"), "PC", hx("pc-guid"), str(len(recs))] + recs
+            cmds += ["PP", "4", "d3ff0000000000000", "d4000000000000000", "dc000000000000000", "f3f000000", "PE", "FIN"]
+            lines.append("METAWDEV " + " ".join(cmds))
+        for o in core.run_cases(impl, lines):
+            if " | " in o and o.split(" | ")[0].split(",")[-1] == "o":
+                base = bytes.fromhex(o.split(" | ", 1)[1].strip())
+                for attr in (b"minimum", b"maximum"):
+                    for nth in (0, 1, 3):          # which Float element loses the attribute
+                        def edit(xml, attr=attr, nth=nth):
+                            ms = list(re.finditer(rb'<(cartesian[XYZ]|intensity) type="Float"[^>]*?( ' + attr + rb'="[^"]*")', xml))
+                            if len(ms) <= nth:
+                                return xml
+                            m = ms[nth]
+                            return xml[:m.start(2)] + xml[m.end(2):]
+                        files.append(("foreign-style-one-sided-limit", xe.replace_xml(base, edit)))
+    except Exception as e:
+        rep.cov["foreign_style_programs_unavailable"] = str(e)[:200]
     # (c) the bundled files (foreign producers)
     for f in sorted(glob.glob(os.path.join(core.REPO, "testdata", "*.e57"))):
         if os.path.getsize(f) <= (800_000 if tier == "quick" else 50_000_000):
